@@ -61,8 +61,13 @@ impl Tri {
 
 #[inline]
 fn rnd(x: f64) -> f64 {
-	// one rounding of the result in the ValueType (also covers underflow to subnormals)
-	EPS * x.abs() + TINY
+	// one rounding of the result in the ValueType (also covers underflow to subnormals);
+	// a result that is exactly zero (difference of equal numbers, product with zero) is exact
+	if x == 0.0 {
+		0.0
+	} else {
+		EPS * x.abs() + TINY
+	}
 }
 
 impl Ap {
